@@ -27,6 +27,7 @@ func VerifH_bgzf_writer_faults() {
 	seen := false
 	for i := 0; i < ncalls; i++ {
 		var err error
+		vrt.Jitter() // native replays: vary the spacing of the API calls
 		switch vrt.Choice("call", 3) {
 		case 0:
 			n := verifLen("wlen", MAXW)
